@@ -286,6 +286,13 @@ def replay(ob):
 
     layers.append(("oblique 2/m layer", oblique(["Ge"] * 4 + ["S"] * 4, [(0.1, 0.2), (0.9, 0.8), (0.1, 0.2), (0.9, 0.8), (0.4, 0.3), (0.6, 0.7), (0.4, 0.3), (0.6, 0.7)],
                                                 [0.35, 0.35, -0.35, -0.35, -0.9, -0.9, 0.9, 0.9])))
+    # two-plane buckled hexagonal sheet whose extent (2.8 A) lies between 5/3 A and 5 A: the vacuum of the analysed copy depends on the thickness
+    bn = graphene("BN", vacuum=6)
+    pz = bn.get_positions()
+    pz[0, 2] += 1.4
+    pz[1, 2] -= 1.4
+    bn.set_positions(pz)
+    layers.append(("buckled BN, extent 2.8 A", bn))
     layers.append(("oblique m layer", oblique(["Ge", "Ge", "S", "S", "Sn"], [(0.1, 0.2), (0.1, 0.2), (0.4, 0.3), (0.4, 0.3), (0.7, 0.6)], [0.35, -0.35, -0.9, 0.9, 0.0])))
     for name, lay in layers:
         ref = None
@@ -297,6 +304,9 @@ def replay(ob):
             pos = at.get_positions()[:, list(perm)]
             pbc = np.array([True, True, False])[list(perm)]
             b = Atoms(numbers=at.get_atomic_numbers(), positions=pos, cell=cell, pbc=pbc)
+            if rep_ == (2, 1, 1) and perm != (0, 1, 2):
+                # the same sheet in a rotated frame (no cell vector along a cartesian axis)
+                b.rotate(72.0, (1.0, 1.0, 0.3), rotate_cell=True)
             for mt in (0.5, 3.0):
                 try:
                     a = SymmetryAnalyzer(b, symmetry_tol=0.1, min_2d_thickness=mt)
